@@ -516,11 +516,22 @@ func main() {
 	in := fs.String("in", "", "")
 	out := fs.String("out", "", "")
 	hookbin := fs.String("hookbin", "", "")
-	if len(os.Args) < 2 || os.Args[1] != "replay" {
-		fmt.Fprintln(os.Stderr, "usage: op replay -in f -out f -hookbin path")
+	runs := fs.Int("n", 10, "")
+	seed := fs.Int64("seed", 1, "")
+	if len(os.Args) < 2 || (os.Args[1] != "replay" && os.Args[1] != "stress") {
+		fmt.Fprintln(os.Stderr, "usage: op replay -in f -out f -hookbin path | op stress -out f -hookbin path -n N -seed S")
 		os.Exit(2)
 	}
 	fs.Parse(os.Args[2:])
+	if os.Args[1] == "stress" {
+		opfix.Knobs(initialDelay)
+		log.SetDefault(log.NewNop())
+		if err := cmdStress(*out, *hookbin, *runs, *seed); err != nil {
+			fmt.Fprintln(os.Stderr, "op stress:", err)
+			os.Exit(2)
+		}
+		return
+	}
 	fh, err := os.Open(*in)
 	if err != nil {
 		fmt.Fprintln(os.Stderr, err)
